@@ -241,7 +241,8 @@ impl Color3f<Rgb> {
         let s = if l == 0.0 || l == 1.0 {
             0.0
         } else {
-            d / (1.0 - f32::abs(2.0 * l - 1.0))
+            // Rounding may make the quotient exceed one by an ulp
+            (d / (1.0 - f32::abs(2.0 * l - 1.0))).min(1.0)
         };
 
         for ch in [h, s, l] {
@@ -358,7 +359,8 @@ impl Color3f<Hsl> {
         };
 
         rgb.map(|ch| {
-            let ch = ch + m;
+            // Rounding may take the sum an ulp outside the range
+            let ch = (ch + m).clamp(0.0, 1.0);
             debug_assert!(0.0 <= ch && ch <= 1.0, "channel oob: {ch:?}");
             ch
         })
